@@ -206,7 +206,7 @@ def run(ctx):
         if os.path.exists(p):
             os.remove(p)
 
-    rc, out = ctx.go_test("actor", "^TestVerifC12", ["zz_verif_C12_test.go"], timeout=600)
+    rc, out = ctx.go_test("actor", "^TestVerifC12", ["zz_verif_C12_test.go"], timeout=1500)
     ctx.log("go harness done rc=%d" % rc)
     mgr_outs = read_jsonl(os.path.join(work, "c12_mgr_out.jsonl"))
     mark_outs = read_jsonl(os.path.join(work, "c12_mark_out.jsonl"))
